@@ -109,6 +109,53 @@ class Unit(as2a.Unit):
         for k, sl in enumerate(self.slices):
             text.append('void cv_name_copy_%d( const char* arg0)\n{\n%s\n   cv_use( copy);\n}\n' % (k, sl))
         self.slice_path = scratch.write('gen/name_copies.inc', '\n'.join(text))
+        # ---- fixed-size destinations of typed_arg.hpp: TypedArg< T[ N]>::assign and TypedArg< std::array< T, N>>::assign are
+        # sliced out (whole function definitions, by their begin/end markers) and textually instantiated with T := int,
+        # N := CV_N as members of an environment class that declares exactly the members they use
+        ta = open(os.path.join(core.SRC, 'celma/prog_args/detail/typed_arg.hpp')).read()
+        self.assigners = []
+        inc = ['// generated: member functions sliced out of celma/prog_args/detail/typed_arg.hpp (T := int, N := CV_N)']
+        for kind, spec, env in (('carray', 'T[ N]', 'CV_TA_carray'), ('stdarray', 'std::array< T, N>', 'CV_TA_stdarray')):
+            m = re.search(r'template< typename T, size_t N>\n   void TypedArg< %s>::assign\( const std::string& value, bool\)\n\{\n.*?\n\} // TypedArg< %s>::assign\n'
+                          % (re.escape(spec), re.escape(spec)), ta, flags=re.S)
+            if not m:
+                raise Undecided('slice rule: TypedArg< %s>::assign not found in typed_arg.hpp' % spec)
+            t = m.group(0)
+            rules = [('T-INST-head', r'template< typename T, size_t N>\n   void TypedArg< %s>::assign\(' % re.escape(spec), 'void %s::assign(' % env, 1),
+                     ('T-INST-T', r'boost::lexical_cast< T>', 'boost::lexical_cast< CV_T>', 1),
+                     ('T-INST-N', r'\bN\b', 'CV_N', (1, 3)),
+                     # R-INDUCT: the front end rejects loop contracts in C++; the loop is checked by induction instead: the body runs
+                     # once from an arbitrary token position and an arbitrary state satisfying the invariant (mIndex <= N, required
+                     # and ensured by the harness); `continue` reaches the increment expression and leaves
+                     ('R-INDUCT', r'for \(auto it = tok\.begin\(\); it != tok\.end\(\); \+\+it\)', 'for (cv_tok_iterator it = tok.cv_any_position(); cv_once && it != tok.end(); cv_once = false)', 1),
+                     # R-ARROW: the front end has no user-defined operator->; for std::unique_ptr p->f() is p.get()->f()
+                     ('R-ARROW', r'mpCardinality->gotValue\(\)', 'mpCardinality.get()->gotValue()', 1),
+                     ('R-AUTO-init', r'auto  list_val\( \*it\);', 'std::string  list_val( *it);', 1),
+                     ('R-THROW-cut', r'throw std::runtime_error\([^;]*\);', 'CV_THROW_CUT( 1);', 2)]
+            fired = {}
+            for name, pat, rep, cnt in rules:
+                t, n = re.subn(pat, rep, t, flags=re.S)
+                fired[name] = n
+                if not (n == cnt or (isinstance(cnt, tuple) and cnt[0] <= n <= cnt[1])):
+                    raise Undecided('slice rule %s on TypedArg< %s>::assign fired %d times, expected %s' % (name, spec, n, cnt))
+            t = re.sub(r'\bauto\s+const(\s+\w+\s*=)', r'const auto\1', t)
+            t, n = re.subn(r'((?:const\s+)?)auto(\s+)(\w+)\s*=\s*([^;]+);', core._auto_repl, t)
+            fired['R-AUTO(generic)'] = n
+            if re.search(r'\bauto\b', re.sub(r'//[^\n]*', '', t)):
+                raise Undecided('slice of TypedArg< %s>::assign still contains an `auto` the rules do not cover' % spec)
+            inc.append(t)
+            self.assigners.append({'kind': kind, 'function': 'TypedArg< %s>::assign' % spec, 'rules': fired, 'lines': m.group(0).count('\n')})
+            sh.report.append({'file': 'celma/prog_args/detail/typed_arg.hpp [slice TypedArg< %s>::assign]' % spec, 'rules': fired,
+                              'diff_lines': sum(fired.values()), 'lines': m.group(0).count('\n')})
+            # static fact behind the invariant's base case: mIndex is initialised to 0 and written nowhere but in assign()
+            cls = ta[ta.index('class TypedArg< %s>' % spec):m.end()]
+            writes = re.findall(r'[^\n]*(?:\+\+\s*mIndex|mIndex\s*(?:\+\+|--|[-+*/]?=(?!=)))[^\n]*', cls)
+            init = [w for w in writes if re.search(r'size_t\s+mIndex = 0;', w)]
+            other = [w for w in writes if w not in init and 'mDestVar[ mIndex++] = dest_value;' not in w]
+            if len(init) != 1 or other:
+                raise Undecided('static fact: mIndex of TypedArg< %s> is written outside its initialiser and assign(): %r' % (spec, other[:2]))
+        self.assign_path = scratch.write('gen/array_assigners.inc', '\n'.join(inc))
+        self.ha = scratch.write('gen/h_c04_assign.cpp', HARNESS_ASSIGN)
         self.h4 = scratch.write('gen/h_c04.cpp', HARNESS_IT)
         self.hn = scratch.write('gen/h_c04_names.cpp', HARNESS_NAMES)
 
@@ -179,6 +226,72 @@ extern "C" void h_names() {
 '''
 
 
+HARNESS_ASSIGN = r'''// generated harness: the two fixed-size destination assigners of typed_arg.hpp, checked by induction over the token loop
+#include <cstdint>
+#include <cstddef>
+#include <string>
+#define CANARY __CPROVER_assert(0, "CV_CANARY")
+#define CV_THROW_CUT(k) __CPROVER_assume(0)   /* an exception derived from std::exception ends the evaluation: allowed outcome */
+typedef int CV_T;
+static bool cv_nondet_bool() { unsigned char c; return (c & 1) != 0; } static CV_T cv_nondet_val() { CV_T v; return v; } static size_t cv_nondet_size() { size_t n; return n; }
+static bool cv_once;
+size_t cvin_tok_pos;   // position of the token the checked loop pass starts at (0 = first token of the word)
+// ---- environment (ASSUMED contracts, listed as trusted): what the sliced functions call
+struct cv_tok_iterator { size_t mPos; bool operator !=( const cv_tok_iterator& o) const { return mPos != o.mPos; }
+  std::string operator *() const { std::string s; return s; } };        // a token: some string
+namespace celma { namespace common {
+struct Tokenizer { size_t mCount;                                         // any number of tokens
+  Tokenizer( const std::string&, char) { mCount = cv_nondet_size(); }
+  cv_tok_iterator begin() const { cv_tok_iterator i; i.mPos = 0; return i; }
+  cv_tok_iterator end() const { cv_tok_iterator i; i.mPos = mCount; return i; }
+  cv_tok_iterator cv_any_position() const { cv_tok_iterator i; i.mPos = cvin_tok_pos; __CPROVER_assume(i.mPos <= mCount); return i; } };
+template< typename C, typename V> bool contains( const C&, const V&) { return cv_nondet_bool(); }   // reads the container only
+}}
+namespace boost { template< typename T> T lexical_cast( const std::string&) { if (cv_nondet_bool()) __CPROVER_assume(0); /* bad_lexical_cast */ return cv_nondet_val(); } }
+namespace std {
+template< typename T, size_t N> struct array { T mE[N]; T& operator[]( size_t i) { return mE[i]; } T* begin() { return mE; } };
+// std::sort( first, last): requires a valid range [first, last) inside one object
+inline void sort( CV_T* first, CV_T* last) { const char* f = (const char*)first; const char* l = (const char*)last;
+  __CPROVER_assert(__CPROVER_same_object(f, l), "std::sort: first and last point into the same array");
+  __CPROVER_assert(__CPROVER_POINTER_OFFSET(f) <= __CPROVER_POINTER_OFFSET(l) && __CPROVER_POINTER_OFFSET(l) <= __CPROVER_OBJECT_SIZE(f), "std::sort: [first, last) is a valid range of the destination array"); }
+}
+struct cv_Cardinality { void gotValue() { if (cv_nondet_bool()) __CPROVER_assume(0); /* may throw */ } };
+struct cv_CardPtr { cv_Cardinality* mP; cv_Cardinality* get() const { return mP; } };
+struct cv_Formats { bool empty() const { return cv_nondet_bool(); } };
+// the members the sliced functions use, with the types the real classes declare (T := int, N := CV_N); mDestVar is, as in the real
+// classes, a reference to the destination, which is an object of its own (a write behind it is outside that object)
+#define CV_ENV(name, DEST, DTYPE) struct name { name( DTYPE d): mDestVar( d) { } DEST; size_t mIndex; char mListSep; bool mSortData; bool mUniqueData; bool mTreatDuplicatesAsErrors; \
+  std::string mVarName; cv_Formats mFormats; cv_CardPtr mpCardinality; \
+  void check( const std::string&) { if (cv_nondet_bool()) __CPROVER_assume(0); } void format( std::string&) { } void format( std::string&, size_t) { } \
+  void assign( const std::string& value, bool); };
+namespace celma { namespace prog_args { namespace detail {   // the namespace of the sliced functions
+typedef CV_T cv_carray_type[CV_N];
+typedef std::array< CV_T, CV_N> cv_array_type;
+// T (&mDestVar)[N]: the front end cannot initialise a reference-to-array member ("bad array initializer"); a pointer to the first
+// element of the separate N-element destination indexes identically
+CV_ENV(CV_TA_carray, CV_T* mDestVar, CV_T*)
+CV_ENV(CV_TA_stdarray, cv_array_type& mDestVar, cv_array_type&)
+#include "gen/array_assigners.inc"
+}}}
+using namespace celma::prog_args::detail;
+#define HARNESS(name, T, DT) extern "C" void name() { DT dest; T a( dest); cv_Cardinality card; a.mpCardinality.mP = cv_nondet_bool() ? &card : (cv_Cardinality*)0; \
+  a.mSortData = cv_nondet_bool(); a.mUniqueData = cv_nondet_bool(); a.mTreatDuplicatesAsErrors = cv_nondet_bool(); a.mListSep = ','; \
+  cvin_tok_pos = cv_nondet_size(); size_t cvin_index = cv_nondet_size(); __CPROVER_assume(cvin_index <= CV_N);   /* invariant: 0 <= mIndex <= N (mIndex starts at 0, written only by assign) */ \
+  a.mIndex = cvin_index; cv_once = true; std::string v; a.assign( v, false); \
+  __CPROVER_assert(a.mIndex <= CV_N, "invariant preserved: mIndex <= N after one pass of the token loop"); CANARY; }
+HARNESS(h_assign_carray, CV_TA_carray, cv_carray_type)
+HARNESS(h_assign_stdarray, CV_TA_stdarray, cv_array_type)
+'''
+
+
+def make_build_assign(unit, entry, n):
+    def build(job, wd):
+        core.goto_cc(['-nostdinc', '-I', core.STUBS, '-I', unit.scratch.dir, '-DCV_STRING_INLINE', '-DCV_STR_CAP=4', '-DCV_N=%d' % n,
+                      unit.ha, '--function', entry, '-o', 'h.gb'], wd, 'array assigner slices')
+        return os.path.join(wd, 'h.gb')
+    return build
+
+
 def make_build_it(unit, argc, wlen, steps):
     def build(job, wd):
         core.goto_cc(['-nostdinc', '-I', core.STUBS, '-I', unit.shadow.root, '-DCV_STRING_INLINE', '-DCV_STR_CAP=%d' % (wlen + 1),
@@ -218,12 +331,52 @@ def jobs(unit, tier, only=None):
                    'strcpy destination holds strlen+1 bytes; array new released by array delete (harness)', make_build_names(unit),
                    backend='sat', unwind=4, timeout=300, mode='harness', instance={'slices': len(unit.slices), 'name_length': 'unbounded (<= 100000)'},
                    extra_flags=['--drop-unused-functions', '--memory-leak-check']))
+    for a in unit.assigners:
+        for n in ((1, 3) if tier == 'quick' else (1, 2, 3, 8)):
+            out.append(Job('c04_assign_%s_N%d' % (a['kind'], n), a['function'] + ' (sliced function, T := int)',
+                           'every write to the fixed-size destination is inside it; index invariant mIndex <= N preserved (induction over the token loop, harness)',
+                           make_build_assign(unit, 'h_assign_' + a['kind'], n), backend='sat', unwind=6, timeout=300, mode='harness',
+                           instance={'N': n, 'tokens': 'unbounded (induction step from an arbitrary token position)'}, extra_flags=['--drop-unused-functions']))
     if only:
         out = [j for j in out if only in j.name]
     return out
 
 
+def replay_assign(job, inputs, scratch):
+    """The counterexample is a state (values already stored, position of the token): the real Handler is driven into it with a
+    command line and the destination lives in a heap block of exactly N ints."""
+    import glob
+    n, kind = job.instance['N'], (0 if 'carray' in job.name else 1)
+    odir = scratch.path('replay', 'c04_objs', '.keep')
+    odir = os.path.dirname(odir)
+    flags = ['-std=c++17', '-w', '-g', '-O0', '-fsanitize=address,undefined', '-fno-sanitize=vptr', '-fno-sanitize-recover=all', '-I', core.SRC]
+    if not glob.glob(os.path.join(odir, '*.o')):
+        srcs = (sorted(glob.glob(os.path.join(core.SRC, 'library/prog_args/*.cpp'))) + sorted(glob.glob(os.path.join(core.SRC, 'library/prog_args/detail/*.cpp'))) +
+                [os.path.join(core.SRC, 'library/appl/arg_string_2_array.cpp'), os.path.join(core.SRC, 'library/format/text_block.cpp')])
+        from concurrent.futures import ThreadPoolExecutor
+        def cc(src):
+            return core.run(['g++'] + flags + ['-c', src, '-o', os.path.join(odir, os.path.basename(src)[:-4] + '.o')], timeout=600, limit=False)
+        with ThreadPoolExecutor(core.NCPU) as ex:
+            res = list(ex.map(cc, srcs))
+        bad = [r for r in res if r[0] != 0]
+        if bad:
+            return {'outcome': 'unavailable', 'detail': 'replay build failed: ' + bad[0][2][-600:]}
+    exe = scratch.path('replay', 'c04_assign_%d_%d' % (kind, n))
+    if not os.path.exists(exe):
+        rc, out, err, s = core.run(['g++'] + flags + ['-DCV_N=%d' % n, '-DCV_KIND=%d' % kind, os.path.join(core.VERIF, 'replay', 'c04_assign.cpp')] +
+                                   sorted(glob.glob(os.path.join(odir, '*.o'))) + ['-o', exe], timeout=600, limit=False)
+        if rc != 0:
+            return {'outcome': 'unavailable', 'detail': 'replay link failed: ' + err[-600:]}
+    gi = lambda k: inputs.get(k) if isinstance(inputs.get(k), int) else 0
+    args = [exe, str(gi('cvin_index')), '1' if gi('cvin_tok_pos') == 0 else '0']
+    rc, out, err, s = core.run(args, timeout=60, limit=False, env={'ASAN_OPTIONS': 'detect_leaks=0'})
+    return {'outcome': 'reproduced' if rc != 0 else 'not-reproduced', 'cmd': 'replay/c04_assign.cpp -DCV_N=%d -DCV_KIND=%d: %s' % (n, kind, ' '.join(args[1:])),
+            'args': {'argv': args[1:], 'N': n, 'kind': kind}, 'output': (out + err).strip()[-1500:]}
+
+
 def replay(unit, job, o, inputs, scratch):
+    if 'assign' in job.name:
+        return replay_assign(job, inputs, scratch)
     if 'iter' not in job.name:
         return {'outcome': 'unavailable', 'detail': 'no native replay for this C04 unit (counterexample inputs are in this file)'}
     # the counterexample is a cursor STATE; the replay iterates the real iterator over the counterexample's argv from the
@@ -261,16 +414,25 @@ def evidence_info(unit, tier):
                        'ArgListIterator cursor over argv (argc <= 4, every word a separately allocated block of exactly strlen+1 arbitrary non-NUL '
                        'bytes, optional remArgStrAsVal() before every step, iteration to end()), ArgString2Array construction/destruction '
                        '(arbitrary NUL-free string, null or given program name; argv layout asserted, --memory-leak-check), and the two program-name '
-                       'copies of Handler (statements sliced out mechanically; name length unbounded; strcpy/strlen bound to their contract). '
+                       'copies of Handler (statements sliced out mechanically; name length unbounded; strcpy/strlen bound to their contract), and the two '
+                       'fixed-size destinations of typed_arg.hpp, TypedArg<T[N]>::assign and TypedArg<std::array<T,N>>::assign (whole function '
+                       'definitions sliced out, T := int, checked by induction over the token loop from any state with mIndex <= N: unbounded in '
+                       'tokens and calls, environment by assumed contracts). '
                        'Termination and "only std::exception escapes" are not decided; the rest of the handler (boost, iostreams, std::function, '
-                       'TypedArg<...>) is outside the front end.',
+                       'the other TypedArg<...> specialisations) is outside the front end.',
         'trusted_base': ['CBMC 6.11 C++ front end on the shadow units (T-INST of the iterator template, R-NSDMI, R-CONST, R-THROW-cut ... listed under extraction)',
-                         'stand-in <string> (inline flavour), <vector>, <memory> (unique_ptr<char>/<char[]>), <cstring> models of CBMC', 'MiniSat'],
+                         'stand-in <string> (inline flavour), <vector>, <memory> (unique_ptr<char>/<char[]>), <cstring> models of CBMC', 'MiniSat',
+                         'ASSUMED contracts of the environment of the two sliced assigners: common::Tokenizer yields any number of arbitrary strings; '
+                         'boost::lexical_cast<int> returns any value or throws; common::contains only reads; TypedArgBase::check/format do not touch '
+                         'mIndex/mDestVar; ICardinality::gotValue may throw; std::sort requires a valid range inside one object; '
+                         'T (&mDestVar)[N] stands as pointer to a separate N-element array (reference-to-array members cannot be initialised by the front end)',
+                         'static fact (regex, every run): mIndex of both classes is initialised to 0 and written only in assign()'],
         'assumptions': ['bounded argv / string sizes (see instances)', 'a throw ends the path (no exception object modelled)',
                         'static scan (supporting fact, regex): raw memory handling in the argument-handling sources occurs in ' + ', '.join(sorted(unit.scan)) +
                         (('; NOT under contract: ' + ', '.join(unit.unexpected_raw)) if unit.unexpected_raw else '; all of these are under contract'),
-                        'typed destinations (TypedArg<T[N]>, containers) are not under contract'],
-        'not_under_contract': list(unit.shadow.dropped) + ['Handler (everything except the two sliced program-name copies)', 'TypedArg<...> destinations'],
+                        'typed destinations other than the two fixed-size arrays (containers, tuple, bitset, optional, ValueFilter) are not under contract: they store through library containers',
+                        'CBMC pointer checks are object-granular: the array destination of the slices is a separate object so that a write behind it is an obligation'],
+        'not_under_contract': list(unit.shadow.dropped) + ['Handler (everything except the two sliced program-name copies)', 'TypedArg<...> destinations other than T[N] and std::array<T,N>'],
         'extra': {'static_scan': {k: v[:20] for k, v in unit.scan.items()}, 'raw_memory_sites_not_under_contract': unit.unexpected_raw,
-                  'name_copy_slices': unit.slices},
+                  'name_copy_slices': unit.slices, 'array_assigner_slices': unit.assigners},
     }
